@@ -317,6 +317,8 @@ func runR17(c *Ctx, r *R, read bool) {
 			report(Discharged, "error construction (%s)", s.what)
 		case attributed != "":
 			report(Discharged, "%s (%s)", attributed, s.what)
+		case !read && strings.Contains(s.what, "append") && selfAppendLine(c, s.fn, s.line):
+			report(Discharged, "amortised append to a slice field of the pooled writer state, stored back into the same field (%s)", s.what)
 		case !read && allocAllow[strings.SplitN(fnKey(s.fn), "$", 2)[0]] != "":
 			report(Discharged, "allow-listed: %s (%s)", allocAllow[strings.SplitN(fnKey(s.fn), "$", 2)[0]], s.what)
 		case !read && allocAllow[fnKey(s.fn)] != "":
